@@ -45,6 +45,26 @@ def insert_flows(prog, ctx):
     return f, [(p, analyse(p, counting, tp, counters=("_inserted_elements", "_CountingCuckooFilter__unique_elements"))) for p in ps]
 
 
+def stale_candidate_sinks(prog, ctx, p, fl):
+    """[(sink event, re-sizing call event)]: an entry stored into a bucket addressed by a candidate index that was handed in as a parameter,
+    after a call on the path changed the capacity - the parameter was computed for the old table, so the bucket is not one of the entry's
+    candidates in the new one and no look-up will find it there"""
+    from ..effects import Effects
+    E = _EFF.setdefault(id(prog), Effects(prog))
+    resize = [i for i, e in enumerate(p.events) if e.kind == "call" and e.target is not None and not e.d.get("inlined")
+              and any(x[0] == "self" and x[1] == "_cuckoo_capacity" for x in E.of(ctx, e.target))]
+    out = []
+    if resize:
+        for (t, b, e) in fl.sunk:
+            b_ = strip_epochs(b)
+            if b_[0] == "p" and e in p.events and p.events.index(e) > resize[0]:
+                out.append((e, p.events[resize[0]]))
+    return out
+
+
+_EFF = {}
+
+
 def check_insert(prog, rep, ctx):
     f, flows = insert_flows(prog, ctx)
     rep.analysed(f, ctx, len(flows))
@@ -57,6 +77,11 @@ def check_insert(prog, rep, ctx):
             if rule in ("own.overwrite-without-capture", "own.sink-unheld", "own.loop-invariant"):
                 rep.bad("C03.no-loss-on-insert", where, rule.split(".")[1], msg, e.where())
                 good = False
+        for (e, rz) in stale_candidate_sinks(prog, ctx, p, fl):
+            rep.bad("C03.no-loss-on-insert", where, "stored at a stale candidate",
+                    f"after {rz.name}() changed the capacity the entry is stored into a bucket addressed by an index computed before it: that bucket is not one of its "
+                    "candidates in the new table, so the key is reported absent", e.where())
+            good = False
         rv = strip_epochs(p.exit[1])
         held = fl.held
         loc = f.where(p.exit[2]) if p.exit[2] is not None else f.where()
@@ -511,6 +536,10 @@ from ..selftest import Mutant, del_stmt, insert_stmt, replace_expr, replace_stmt
 
 _CK, _CC = "cuckoo/cuckoo.py", "cuckoo/countingcuckoo.py"
 MUTANTS = [
+    Mutant("full table grows first, then stores the entry at the candidates computed for the old capacity", "cuckoo/cuckoo.py",
+           insert_stmt("CuckooFilter", "_insert_fingerprint", "if self.auto_expand and self._inserted_elements >= self.capacity * self.bucket_size:\n    self._expand_logic(None)\n    if self.__insert_element(fingerprint, idx_1):\n        self._inserted_elements += 1\n        return None", before="idx = random.choice"), rule="C03.no-loss"),
+    Mutant("full table grows first, candidates recomputed before the entry is stored (no entry lost)", "cuckoo/cuckoo.py",
+           insert_stmt("CuckooFilter", "_insert_fingerprint", "if self.auto_expand and self._inserted_elements >= self.capacity * self.bucket_size:\n    self._expand_logic(None)\n    idx_1, idx_2 = self._indicies_from_fingerprint(fingerprint)\n    if self.__insert_element(fingerprint, idx_1):\n        self._inserted_elements += 1\n        return None", before="idx = random.choice"), expect="silent"),
     Mutant("auto_expand stored as passed and tested by identity", "cuckoo/cuckoo.py",
            seq(replace_stmt("CuckooFilter", "__init__", "self.auto_expand = auto_expand", "self.__auto_expand = auto_expand"),
                replace_expr("CuckooFilter", "_deal_with_insertion", "self.auto_expand", "self.auto_expand is True")), rule="C03.no-loss-on-insert"),
